@@ -78,6 +78,19 @@ class TickRounding(Harness):
         # the book and best quote show the accepted price
         best = m.get_best_buy_price() if case["is_buy"] else m.get_best_sell_price()
         g.require(best == q, "C19.book-price!=accepted-price")
+        # the same submitted price on the other side of the same market rounds the other way
+        o2 = Order(agent_id=1, market_id=0, is_buy=not case["is_buy"], kind=LIMIT_ORDER, volume=1, price=p)
+        PM.math = ProxyMath() if g.symbolic else old_math
+        try:
+            q2 = m._add_order(o2).price
+        finally:
+            PM.math = old_math
+        g.require(_is_multiple(g, q2, t), "C19.accepted-price-off-grid")
+        g.require(sor(snot(on_grid), q2 == p), "C19.on-grid-price-changed")
+        if case["is_buy"]:
+            g.require(sand(q2 >= p, q2 - p < t), "C19.more-aggressive", "second order (sell at the same price) rounded the wrong way")
+        else:
+            g.require(sand(q2 <= p, p - q2 < t), "C19.more-aggressive", "second order (buy at the same price) rounded the wrong way")
 
 
 # =================================================================================================
